@@ -160,6 +160,14 @@ def write_charts(cp, path):
             f.write(chartmod.dumps(v) + "\n")
 
 
+def settle_ms(c):
+    """how long the recording waits at the end for delayed sends (0: the chart has none)"""
+    if not hasattr(c, "_settle"):
+        d = c.max_delay()
+        c._settle = 0 if d == 0 else max(400, 12 * d)
+    return c._settle
+
+
 def write_batch(cp, cases, engine, path, render_cache):
     with open(path, "wb") as f:
         for cs in cases:
@@ -169,7 +177,7 @@ def write_batch(cp, cases, engine, path, render_cache):
                 render_cache[key] = c.render(cs["dm"]).encode()
             x = render_cache[key]
             hdr = chartmod.dumps({"k": "reset", "case": cs["id"], "chart": cs["chart"], "exec": engine,
-                                  "dm": cs["dm"], "mode": cs["mode"],
+                                  "dm": cs["dm"], "mode": cs["mode"], "settle": settle_ms(c),
                                   "word": [w.split(".") for w in cs["word"]]})
             f.write(("CASE %d %s %s %d %d %d\n" % (cs["id"], engine, cs["mode"], len(cs["word"]),
                                                    len(c.vars), len(x))).encode())
